@@ -711,6 +711,16 @@ def hDaCoarsen2 : Handler := handler fun args =>
     | none => pure c27Raised
   | _ => none
 
+/-- `(histogram_w (edges…) ((block…)…) ((weights…)…))` ↦ `(merged whole)` with integer (pre-scaled) weights -/
+def hHistogramW : Handler := handler fun args =>
+  match args with
+  | [e, bs, ws] => do
+    let e ← e.toNats?
+    let bs ← bs.toNatss?
+    let ws ← ws.toIntss?
+    pure (.list [SExp.ofInts (histMergeW e (bs.zip ws)), SExp.ofInts (histBlockW e bs.flatten ws.flatten)])
+  | _ => none
+
 /-- `(histdd ((edges…)…) (((row…)…)…))` ↦ `(merged whole)` -/
 def hHistdd : Handler := handler fun args =>
   match args with
@@ -907,7 +917,7 @@ def table : List (String × Handler) := [
   ("meshgrid", hMeshgrid), ("grid", hGrid),
   ("searchsorted", hSearchsorted), ("bincount_w", hBincountW), ("unique_inverse", hUniqueInverse), ("bincount", hBincount), ("histogram", hHistogram), ("unique", hUnique),
   ("unique_internal", hUniqueInternal), ("nonzero", hNonzero), ("coarsen_sum", hCoarsen),
-  ("aligned_coarsen", hAlignedCoarsen), ("da_coarsen", hDaCoarsen), ("da_coarsen2", hDaCoarsen2), ("histdd", hHistdd), ("hist2d", hHist2d),
+  ("aligned_coarsen", hAlignedCoarsen), ("da_coarsen", hDaCoarsen), ("da_coarsen2", hDaCoarsen2), ("histdd", hHistdd), ("histogram_w", hHistogramW), ("hist2d", hHist2d),
   ("digitize", hDigitize), ("compress", hCompress), ("compress_np", hCompressNp), ("isin", hIsin), ("ss_blocks", hSsBlocks), ("unravel", hUnravel), ("ravel", hRavel), ("argwhere", hArgwhere),
   ("bincount_tree", hBincountTree),
   ("concat_plan", hConcatPlan), ("pad", hPad), ("pad_chunks", hPadChunks), ("roll", hRoll),
